@@ -279,12 +279,12 @@ end AnyDB.Gen
                 f.write(text)
             changed.append(name)
     # vecdb part is generated by extract_vec (same file, below) once those anchors exist
-    try:
-        import extract_vec  # type: ignore
+    import extract_vec  # type: ignore
 
+    try:
         changed += extract_vec.generate(REPO, OUT)
-    except ImportError:
-        pass
+    except extract_vec.Missing as e:
+        raise Missing(str(e))
     print("extract: ok" + (f" (updated {', '.join(changed)})" if changed else " (unchanged)"))
 
 
